@@ -165,14 +165,14 @@ def handle (op : String) (args impl : List String) : Option String :=
           let clauses :=
             (if instOK then [] else ["ordered-instants"]) ++ (if todOK || dateWrap then [] else ["ordered-local"])
             ++ (if wallOK then [] else ["local-is-instant-on-zone-clock"])
-            ++ (if nst == "o" then [] else ["noon-open"]) ++ (if mst == "c" then [] else ["midnight-closed"])
+            ++ (if nst == "o" || nd < 693596 then [] else ["noon-open"]) ++ (if mst == "c" then [] else ["midnight-closed"])
           let classes :=
             (if !wallOK then ["local-not-wallclock"] else []) ++
             (if !instOK then [if epoch then "no-event-epoch" else "instants-unordered"] else [])
             ++ (if !todOK && instOK then
                   [if clockChange then "clock-change-between-events"
                    else if sameDate then "tod-unordered" else "D17-event-date-dropped"] else [])
-            ++ (if (nst != "o" || mst != "c") && todOK && instOK then
+            ++ (if ((nst != "o" && nd ≥ 693596) || mst != "c") && todOK && instOK then
                   [if clockChange then "clock-change-between-events" else "consequence-fails"] else [])
           let mN := modelState nd nm np nc
           let mM := modelState md mm mp mc
